@@ -33,6 +33,9 @@
 //!   poll_send, `fi` poll_finish; the `AsyncRead` / `AsyncWrite` faces (added for C19):
 //!   `rf:<n1>,<n2>,…[:<calls>]` / `rt:…` read through futures / tokio `poll_read` with caller buffers of these sizes
 //!   (cycling) to the end or for <calls> completed calls → `data:<hex>:n=<bytes per call>:<end|more|err:rterm:<c>|err:conn>`;
+//!   `rff:…` / `rtf:…` the same in FILL mode (added for C06): every buffer is filled to its end by as many calls as that
+//!   takes, `read_exact`-style - tokio: ONE `ReadBuf` kept across the calls (so calls start with a partly filled buffer),
+//!   futures: the unfilled sub-slice `&mut buf[filled..]`;
 //!   `sp` BidiStream::split (send half → task `w<sid>s`); `sd:<hex>` send_data(Frame::Data) + poll_ready;
 //!   `wf:<hex>` / `wt:<hex>` write all through futures / tokio `poll_write`, then `poll_flush` → `ok:n=<bytes per call>`;
 //!   `cl` futures poll_close, `sh` tokio poll_shutdown, `rst:<code>` reset, `ss:<code>` stop_sending
@@ -616,6 +619,90 @@ macro_rules! wt_read {
     }};
 }
 
+/// read loop of an application that FILLS each of its buffers (`read_exact`, `read_buf` on a partly filled
+/// buffer): the calls go on with what is left of the same buffer until it is full, then the next buffer is taken.
+/// tokio face: one `ReadBuf` lives across those calls, so `poll_read` sees `filled() > 0`; futures face: the
+/// unfilled sub-slice.  Same answer format as `wt_read!` (`n=` lists the bytes of every completed CALL).
+macro_rules! wt_read_fill {
+    ($s:expr, $tokio_face:expr, $sizes:expr, $calls:expr) => {{
+        let mut all: Vec<u8> = Vec::new();
+        let mut counts: Vec<usize> = Vec::new();
+        let mut i = 0usize;
+        let mut done = 0usize;
+        let end = 'outer: loop {
+            let n = $sizes[i % $sizes.len()].max(1);
+            i += 1;
+            let mut buf = vec![0xa5u8; n];
+            let mut filled = 0usize;
+            let mut fin: Option<String> = None;
+            if $tokio_face {
+                let mut rb = tokio::io::ReadBuf::new(&mut buf);
+                while rb.remaining() > 0 {
+                    if let Some(m) = $calls {
+                        if done >= m {
+                            fin = Some("more".to_string());
+                            break;
+                        }
+                    }
+                    let before = rb.filled().len();
+                    match std::future::poll_fn(|cx| tokio::io::AsyncRead::poll_read(std::pin::Pin::new(&mut *$s), cx, &mut rb)).await {
+                        Ok(()) => {
+                            let k = rb.filled().len() - before;
+                            if k == 0 {
+                                fin = Some("end".to_string());
+                                break;
+                            }
+                            counts.push(k);
+                            done += 1;
+                        }
+                        Err(e) => {
+                            fin = Some(render_io_err(&e));
+                            break;
+                        }
+                    }
+                }
+                filled = rb.filled().len();
+            } else {
+                while filled < n {
+                    if let Some(m) = $calls {
+                        if done >= m {
+                            fin = Some("more".to_string());
+                            break;
+                        }
+                    }
+                    match std::future::poll_fn(|cx| futures_util::io::AsyncRead::poll_read(std::pin::Pin::new(&mut *$s), cx, &mut buf[filled..])).await {
+                        Ok(0) => {
+                            fin = Some("end".to_string());
+                            break;
+                        }
+                        Ok(k) if k > n - filled => {
+                            fin = Some(format!("err:overrun:{}", k));
+                            break;
+                        }
+                        Ok(k) => {
+                            filled += k;
+                            counts.push(k);
+                            done += 1;
+                        }
+                        Err(e) => {
+                            fin = Some(render_io_err(&e));
+                            break;
+                        }
+                    }
+                }
+            }
+            if buf[filled..].iter().any(|b| *b != 0xa5) {
+                break 'outer "err:scribble".to_string();
+            }
+            all.extend_from_slice(&buf[..filled]);
+            if let Some(f) = fin {
+                break 'outer f;
+            }
+        };
+        format!("data:{}:n={}:{}", to_hex(&all), join_counts(&counts), end)
+    }};
+}
+
 /// `write_all` + `flush` of an application that uses `poll_write` directly
 macro_rules! wt_write {
     ($s:expr, $tokio_face:expr, $data:expr) => {{
@@ -763,6 +850,18 @@ async fn wt_stream_task(name: String, mut st: WtStream, mb: Mailbox, ctx: Ctx) {
                 let out = match &mut st {
                     WtStream::Bidi(s) => wt_read!(s, op == "rt", sizes, calls),
                     WtStream::Recv(s) => wt_read!(s, op == "rt", sizes, calls),
+                    WtStream::Send(_) => "bad-cmd".to_string(),
+                };
+                ctx.log(&name, op, out);
+            }
+            // rff / rtf: the same in FILL mode - every caller buffer is filled to its end by as many calls as it takes
+            // (tokio: one `ReadBuf` across the calls, i.e. calls with a partly filled buffer; futures: the sub-slice)
+            "rff" | "rtf" => {
+                ctx.begin(&name, op);
+                let (sizes, calls) = parse_sizes(arg);
+                let out = match &mut st {
+                    WtStream::Bidi(s) => wt_read_fill!(s, op == "rtf", sizes, calls),
+                    WtStream::Recv(s) => wt_read_fill!(s, op == "rtf", sizes, calls),
                     WtStream::Send(_) => "bad-cmd".to_string(),
                 };
                 ctx.log(&name, op, out);
